@@ -12,6 +12,7 @@ CONSTANTS
  MaxEvents = 0
  MaxFaults = 0
  Export = FALSE
+ RunToBlock = FALSE
  Mut = "none"
 SPECIFICATION Spec
 INVARIANTS InvPausedQuiet InvFlushFresh InvPauseSurvives InvTerminatedGone InvReset InvC11 InvNeverPropagated InvLoopShape
